@@ -23,11 +23,14 @@ pub struct Case {
     /// history variant: the previous vector (q) already holds the requested tool point, but the requested tool
     /// axis is tilted by this angle about the tool's x axis (0 = the request is FK(q) itself)
     pub tilt: f64,
+    /// completeness is demanded when |sin J5| exceeds this (1e-3 on the product lattice; just outside the library's
+    /// 0.01 degree band in the threshold sweep)
+    pub regular_above: f64,
 }
 
 impl Case {
     fn json(&self) -> Value {
-        json!({"stack": self.stack.to_json(), "q": nums(&self.q), "entry": self.entry.name(), "j6": num(self.j6), "tilt": self.tilt})
+        json!({"stack": self.stack.to_json(), "q": nums(&self.q), "entry": self.entry.name(), "j6": num(self.j6), "tilt": self.tilt, "regular_above": self.regular_above})
     }
     fn from_json(v: &Value) -> Case {
         Case {
@@ -36,6 +39,7 @@ impl Case {
             entry: Entry::from_name(v["entry"].as_str().unwrap()),
             j6: as_num(&v["j6"]),
             tilt: v["tilt"].as_f64().unwrap_or(0.0),
+            regular_above: v["regular_above"].as_f64().unwrap_or(1e-3),
         }
     }
 }
@@ -97,7 +101,7 @@ pub fn eval(c: &Case) -> (Vec<(String, String)>, usize, bool) {
     let inner = c.stack.inner_joints(&c.q);
     let flange = fkref::fk(p, &inner);
     let th = fkref::internal_angles(p, &inner);
-    let regular = c.tilt == 0.0 && expected_branches(p, &flange).is_some() && th[4].sin().abs() > 1e-3;
+    let regular = c.tilt == 0.0 && expected_branches(p, &flange).is_some() && th[4].sin().abs() > c.regular_above;
     if regular {
         let mut orig = c.q;
         orig[5] = want_j6;
@@ -181,7 +185,7 @@ pub fn run(ctx: &Ctx) -> Report {
                     if tilt != 0.0 && !(entry.uses_prev() && (thorough || (ji + idx as usize) % 2 == 0)) {
                         continue;
                     }
-                    let c = Case { stack: stack.clone(), q, entry, j6: *j6, tilt };
+                    let c = Case { stack: stack.clone(), q, entry, j6: *j6, tilt, regular_above: 1e-3 };
                     let (fails, nsol, ran) = eval(&c);
                     if !ran {
                         continue;
@@ -198,11 +202,45 @@ pub fn run(ctx: &Ctx) -> Report {
             }
         }
     });
+    // --- threshold sweep: J5 approaching 0 and pi along a magnitude ladder; the originating configuration is demanded
+    // as soon as J5 is 5% outside the library's singularity band
+    let lad = crate::common::ladder::ladder(&["kinematics_impl.rs"]);
+    let srobots = sweep_robots();
+    let others: [[f64; 5]; 3] = [[0.3, 0.4, -0.2, 0.7, 1.1], [-2.4, -0.9, 0.8, -1.3, -2.5], [1.2, 0.5, -1.9, 3.0, 0.0]];
+    let ssizes = [srobots.len(), lad.len(), 4, others.len(), 3];
+    let sn = par::product(&ssizes);
+    let thr = 0.01f64.to_radians();
+    let srep = par::run(sn, |idx, r| {
+        let mut ix = [0usize; 5];
+        par::decode(idx, &ssizes, &mut ix);
+        let p = &srobots[ix[0]];
+        let d = lad[ix[1]] * if ix[2] % 2 == 0 { 1.0 } else { -1.0 };
+        let t5 = if ix[2] / 2 == 0 { d } else { PI + d };
+        let o = others[ix[3]];
+        let q = user_joints(p, &[o[0], o[1], o[2], o[3], t5, o[4]]);
+        let stack = stacks(p).swap_remove([0usize, 1, 3][ix[4]]);
+        r.states += 1;
+        for entry in ENTRIES {
+            let c = Case { stack: stack.clone(), q, entry, j6: 0.55, tilt: 0.0, regular_above: (1.05 * thr).sin() };
+            let (fails, nsol, ran) = eval(&c);
+            if !ran {
+                continue;
+            }
+            r.transitions += 1;
+            r.sig(format!("j5-ladder:{}:dof{}:{}:{}", entry.name(), p.dof, stack.shape(), nsol.min(1)));
+            for (k, dd) in fails {
+                r.fail(format!("{k}/j5-ladder"), n + idx, c.json(), dd);
+            }
+        }
+    });
+    rep.merge(srep);
+    rep.set("threshold_sweep", json!({"ladder_values": lad.len(), "points": sn, "complete_outside": "1.05 x the 0.01 degree band"}));
     rep.traces_validated = rep.transitions;
     rep.rule = "robots R (dof 5 and 6, one with J6 sign 0) x stacks {bare, axial tool, z-shift tool, base, base>tool, tool>base} x theta lattice x \
                 J6 alphabet {0,0.55,-3,pi,7.5,1e3} x entry points; oracle: tool point/axis through the stack's reference FK, J6 bit-equal to the \
                 caller's, originating J1..J5 present and answer list non-empty when the configuration is regular; history variant for the \
                 continuing entry points: previous = q already at the requested tool point, requested axis tilted by {0.35, -2.0} rad (soundness clauses only); \
+                threshold sweep: J5 = {0, pi} +- every ladder magnitude on 5 sweep robots x 3 postures x {bare, axial tool, base}; \
                 signature = (entry, dof, stack shape, number of answers)".into();
     rep.set("axes", json!({"robots": robots.len(), "stacks": nst, "theta_axis_sizes": ax.iter().map(|a| a.len()).collect::<Vec<_>>(), "j6": J6S.to_vec()}));
     rep.assumptions.push("lattice-relative: values outside the printed axes are not covered".into());
